@@ -1,5 +1,6 @@
 (** C07 -- the executable instance used by the correspondence check: values are rationals,
-    functions are the table of harness/c07_fns.py (same ids, same meaning).  No proofs here.
+    functions are the table of harness/c07_fns.py (same ids, same meaning; ids 19..27 have local
+    assignments and branch-local reassignment, written here as the let/if they mean).  No proofs here.
 
     In this instance the inlined expression of a translatable function means what the Python
     function means ([isemQ := fsemQ] on translatable ids): that is exactly hypothesis C06 of the
@@ -36,10 +37,29 @@ Definition fsemQ (f : fnid) (args : list Q) : option Q :=
   | 16%N, [a] => Some a                                  (* u_subscript  -- not translatable *)
   | 17%N, [a; b] => Some (if Qgtb a 0 && Qgtb b 0 then a else b) (* u_boolop -- not translatable *)
   | 18%N, [a] => Some a                                  (* u_lambda -- not translatable *)
+  (* local assignments, names reassigned inside a branch and read after it *)
+  | 19%N, [a; cap] => Some (let r := a * 2 in if Qgtb r cap then cap else r)        (* h_cap *)
+  | 20%N, [a; b] => Some (let f := if Qgtb a b then b else 1 in a * f)               (* h_default *)
+  | 21%N, [a; b; c] =>                                                              (* h_nested *)
+    Some (if Qgtb a b then (let r := if Qgtb a c then c else a in r + b) else a)
+  | 22%N, [a; b] =>                                                                 (* h_swap *)
+    Some (let lohi := if Qgtb a b then (b, a) else (a, b) in snd lohi - fst lohi * 2)
+  | 23%N, [a; b] =>                                                                 (* h_elif *)
+    Some (let r := if Qgtb a 1 then a + b else if Qltb a (-1) then a * b - b else b in r * 2)
+  | 24%N, [a] =>                                                                    (* h_step *)
+    Some (let r1 := if Qgtb a 1 then 1 else a in
+          let r2 := if Qltb a (-1) then -1 else r1 in r2 - a * (1 # 2))
+  | 25%N, [a; b; c] =>                                                              (* h_else_reads *)
+    Some (let r := a + b in let s := if Qgtb r c then c else r * 2 in s - a)
+  | 26%N, [a; b] =>                                                                 (* h_else_assigns *)
+    Some (let rs := if Qgtb a b then (a, a) else (b, b + a) in snd rs + fst rs * 2)
+  | 27%N, [a; b] =>                                                                 (* h_after *)
+    Some (let s := if Qgtb a b then a * 2 else b in a + s)
   | _, _ => None
   end.
 
-Definition translatesQ (f : fnid) : bool := N.ltb f 16.
+(** harness/c07_fns.py : TRANSLATABLE = {0..15} + {19..27} *)
+Definition translatesQ (f : fnid) : bool := N.ltb f 16 || (N.leb 19 f && N.leb f 27).
 
 Definition isemQ (_ : lang) (f : fnid) (args : list Q) : option Q :=
   if translatesQ f then fsemQ f args else None.
@@ -84,6 +104,7 @@ Definition body_eqb (b : list (pname * rhs Q)) (o : list (pname * option Q)) : b
   list_eqb2 (fun x y => pname_eqb (fst x) (fst y)
                        && match snd x with
                           | RConst v => match snd y with Some w => Qeq_bool v w | None => false end
+                          | RSum [] => match snd y with Some w => Qeq_bool 0 w | None => false end  (* the explicit 0.0 *)
                           | _ => true
                           end) b o.
 
@@ -133,6 +154,25 @@ Definition spec_rhs (m : cmodel Q) (order free : list name) (fv : list Q) (t : Q
       map_opt (fun x => dxdt Q 0 Qplus Qmult fsemQ m (env_of e) x) (m_var m)
     else None
   end.
+
+(** what the model's CACHE holds for the stoichiometries (cache.stoich_by_cpds): a computed
+    coefficient all of whose arguments are parameters is stored as the NUMBER it has at the stored
+    parameter values.  A generator reading the cache instead of the raw reactions would emit that
+    number: kept as a regression witness (CgInstProofs.v, C07_cache_evaluated_coefficient_refuted) *)
+Definition freeze_par_coefs (m : cmodel Q) : cmodel Q :=
+  let stored := map (fun e => (fst e, snd (snd e))) (m_par m) in
+  let fz (c : coef Q) : coef Q :=
+    match c with
+    | CDyn g ga =>
+      match map_opt (fun x => assoc x stored) ga with
+      | Some vs => match fsemQ g vs with Some v => CStat v | None => c end
+      | None => c
+      end
+    | _ => c
+    end in
+  mkCM (m_par m) (m_var m) (m_der m)
+       (map (fun r : name * (fnid * list name * list (name * coef Q)) =>
+               (fst r, (fst (snd r), map (fun vc => (fst vc, fz (snd vc))) (snd (snd r))))) (m_rxn m)).
 
 Definition optlist_eqb (a b : option (list Q)) : bool :=
   match a, b with
